@@ -527,6 +527,11 @@ Fixpoint rloop (lineno : Z -> bytes -> nat -> CapDefs.res (Z * nat)) (fuel : nat
       if (c2 =? 0)%N then CapDefs.Ok (false, b1, e1, xrow) else
       rloop lineno f s (S j) (if (c2 =? 59)%N then e1 - 1 else xrow) (S naddr) b1 e1))))
   end.
+Lemma rloop_first lineno f s i xr b e b' e' : (i <= length s)%nat -> nthb s i <> 0%N ->
+  rloop lineno (S f) s i xr O b e = rloop lineno (S f) s i xr O b' e'.
+Proof.
+  intros Hi Hc. cbn [rloop]. rewrite (rd_ok s i Hi). cbn [CapDefs.bind]. destruct (N.eqb_spec (nthb s i) 0); [contradiction|]. reflexivity.
+Qed.
 Definition region_full (len : Z) (lineno : Z -> bytes -> nat -> CapDefs.res (Z * nat)) (loc : bytes) (xrow : Z)
     : CapDefs.res (bool * Z * Z * Z) :=
   if CapDefs.bytes_eqb loc [37%N] then CapDefs.Ok (false, 0, Z.max 0 len, xrow) else
@@ -621,11 +626,10 @@ Definition rpct : stmt :=
     (SSeq (SExpr (EStore (Some I32) (ELocal 1) (EConst 0)))
     (SSeq (SExpr (EStore (Some I32) (ELocal 2) (ECond (EBin OLt I32 (EConst 0) lbuf_len_call) lbuf_len_call (EConst 0)))) (SReturn (Some (EConst 0))))) SSkip.
 Definition xrow_ld : expr := ELoad (Some I32) (EGlob G_xrow).
-Definition rempty : stmt :=
-  SIf (ELNot rbyte)
-    (SSeq (SExpr (EStore (Some I32) (ELocal 1) xrow_ld))
-    (SSeq (SExpr (EStore (Some I32) (ELocal 2) (ECond (EBin OEq I32 xrow_ld lbuf_len_call) xrow_ld (EBin OAdd I32 xrow_ld (EConst 1)))))
-          (SReturn (Some (EOrElse (EBin OLt I32 xrow_ld (EConst 0)) (EBin OGt I32 xrow_ld lbuf_len_call)))))) SSkip.
+Definition re_beg : stmt := SExpr (EStore (Some I32) (ELocal 1) xrow_ld).
+Definition re_end : stmt := SExpr (EStore (Some I32) (ELocal 2) (ECond (EBin OEq I32 xrow_ld lbuf_len_call) xrow_ld (EBin OAdd I32 xrow_ld (EConst 1)))).
+Definition re_ret : stmt := SReturn (Some (EOrElse (EBin OLt I32 xrow_ld (EConst 0)) (EBin OGt I32 xrow_ld lbuf_len_call))).
+Definition rempty : stmt := SIf (ELNot rbyte) (SSeq re_beg (SSeq re_end re_ret)) SSkip.
 Lemma ex_region_shape : fn_body cf_ex_region =
   SSeq (SExpr (ESetLocal 3 (EBuiltin BMalloc [EConst 1]))) (SSeq (SExpr (EStore None (ELocal 3) (ELocal 0))) (SSeq (SExpr (ESetLocal 4 (EConst 0)))
   (SSeq rpct (SSeq rempty (SSeq (SWhile rbyte rbody) rtail))))).
@@ -947,5 +951,117 @@ Section Region.
     - exact Hr.
     - exact Hfit.
     - lia.
+  Qed.
+
+  Lemma exec_re_beg fuel mm i xr vb e v0 na v5 : RInv mm i xr vb e -> int_ok xr ->
+    exec call fuel re_beg (mkst (LC v0 na v5) mm) = ONormal (mkst (LC v0 na v5) (upd mm bb ([VInt xr] : block))).
+  Proof.
+    intros R Ix. unfold re_beg, xrow_ld. xs. rewrite (load1 mm G_xrow _ (ri_xrow _ _ _ _ _ R)). xs. rewrite !(int_ok_wrap _ Ix).
+    rewrite (store1 mm bb _ _ (ri_beg _ _ _ _ _ R)). xs. reflexivity.
+  Qed.
+  Lemma exec_re_end fuel mm i xr vb e v0 na v5 : RInv mm i xr vb e -> int_ok xr -> (xr <> len -> int_ok (xr + 1)) ->
+    exec call fuel re_end (mkst (LC v0 na v5) mm)
+    = ONormal (mkst (LC v0 na v5) (upd mm be ([VInt (if xr =? len then xr else xr + 1)] : block))).
+  Proof.
+    intros R Ix Hfit. unfold re_end, xrow_ld. xs. rewrite (load1 mm G_xrow _ (ri_xrow _ _ _ _ _ R)). xs. rewrite !(int_ok_wrap _ Ix).
+    rewrite (eval_len mm i xr vb e _ R). xs.
+    destruct (Z.eqb_spec xr len) as [E|E]; xs.
+    - rewrite (load1 mm G_xrow _ (ri_xrow _ _ _ _ _ R)). xs. rewrite !(int_ok_wrap _ Ix).
+      rewrite (store1 mm be _ _ (ri_end _ _ _ _ _ R)). xs. reflexivity.
+    - rewrite (load1 mm G_xrow _ (ri_xrow _ _ _ _ _ R)). xs. rewrite !(int_ok_wrap _ Ix).
+      rewrite (int_ok_chk _ (Hfit E)). xs. rewrite (int_ok_wrap _ (Hfit E)).
+      rewrite (store1 mm be _ _ (ri_end _ _ _ _ _ R)). xs. reflexivity.
+  Qed.
+  Lemma exec_re_ret fuel mm i xr vb e L : RInv mm i xr vb e -> int_ok xr ->
+    exec call fuel re_ret (mkst L mm) = OReturn (VInt (b2z ((xr <? 0) || (len <? xr)))) (mkst L mm).
+  Proof.
+    intros R Ix. unfold re_ret, xrow_ld. xs. rewrite (load1 mm G_xrow _ (ri_xrow _ _ _ _ _ R)). xs. rewrite !(int_ok_wrap _ Ix).
+    destruct (xr <? 0); xs; [reflexivity|].
+    rewrite (load1 mm G_xrow _ (ri_xrow _ _ _ _ _ R)). xs. rewrite !(int_ok_wrap _ Ix).
+    rewrite (eval_len mm i xr vb e _ R). xs. destruct (len <? xr); reflexivity.
+  Qed.
+
+  (* ---- the whole function *)
+  Variables (xrow : Z) (vb0 : val) (e0 : Z).
+  Hypothesis Hs : str_at m bs s.
+  Hypothesis Hx : cell_at m G_xrow xrow.
+  Hypothesis Hbeg : nth_error m bb = Some ([vb0] : block).
+  Hypothesis Hend : nth_error m be = Some ([VInt e0] : block).
+  Hypothesis Hb : nth_error m G_bufs = Some gbufs.
+  Hypothesis Hl : nth_error m bl = Some lblk.
+  Hypothesis Hlit : nth_error m G_lit_25_1 = Some gb_lit_25_1.
+  Hypothesis Hxr : int_ok xrow.
+  Hypothesis He0 : int_ok e0.
+  Hypothesis Hbig : 2 * Z.of_nat (S (length s)) <= 2147483647.
+
+  Lemma RInv_start : RInv (m ++ [([VPtr bs 0] : block)]) 0 xrow vb0 e0.
+  Proof.
+    constructor; unfold str_at, cell_at in *; try (rewrite nth_error_app_old by (eapply lt_of; eassumption); assumption).
+    - apply nth_error_app_new.
+    - intros b' Hb' _ _ _. apply nth_error_app_old. exact Hb'.
+  Qed.
+
+  Lemma region_body_ok fuel r : region_full len lineno s xrow = CapDefs.Ok r -> region_fit len (mark_of lblk) search s xrow ->
+    (2 * S (length s) <= fuel)%nat ->
+    exists st' i', exec call fuel (fn_body cf_ex_region) (mkst [VPtr bs 0; VPtr bb 0; VPtr be 0; VUndef; VUndef; VUndef] m)
+                   = OReturn (VInt (b2z (fst (fst (fst r))))) st' /\
+                   RInv (memm st') i' (snd r) (VInt (snd (fst (fst r)))) (snd (fst r)) /\
+                   int_ok (snd (fst (fst r))) /\ int_ok (snd (fst r)) /\ int_ok (snd r).
+  Proof.
+    intros Hr Hfit Hf. pose proof RInv_start as R0. set (mm0 := m ++ [([VPtr bs 0] : block)]) in *.
+    rewrite ex_region_shape. rewrite exec_seq, exec_expr. xcbn. rewrite malloc_ok by lia. xcbn.
+    change (repeat VUndef (Z.to_nat 1)) with [VUndef].
+    rewrite exec_seq, exec_expr. xcbn.
+    rewrite (store1 (m ++ [[VUndef]]) bn VUndef _ (nth_error_app_new m _)). xcbn. rewrite upd_app_new. fold mm0.
+    rewrite exec_seq, exec_expr. xcbn.
+    (* "%" *)
+    destruct (strcmp_pct mm0 G_lit_25_1 bs s ltac:(unfold mm0; rewrite nth_error_app_old by (eapply lt_of; eassumption); exact Hlit)
+                (ri_str _ _ _ _ _ R0) Hnn) as (rr & Ecmp & Hrr).
+    unfold region_full in Hr. unfold region_fit in Hfit.
+    rewrite exec_seq. unfold rpct. rewrite exec_if. xs. rewrite (load1 mm0 bn _ (ri_loc _ _ _ _ _ R0)). xs.
+    change (Z.of_nat 0) with 0. rewrite Ecmp. xs. rewrite negb_involutive, Hrr.
+    destruct (CapDefs.bytes_eqb s [37%N]) eqn:Epct; xs.
+    { injection Hr as <-. cbn [fst snd b2z].
+      rewrite (store1 mm0 bb _ _ (ri_beg _ _ _ _ _ R0)). xs. pose proof (RInv_beg _ _ _ _ _ (VInt (wrap I32 0)) R0) as R1.
+      fold lbuf_len_call. rewrite (eval_len _ 0%nat xrow _ e0 _ R1). xs.
+      assert (Emax : (if 0 <? len then len else 0) = Z.max 0 len) by (destruct (Z.ltb_spec 0 len); lia).
+      destruct (0 <? len) eqn:E0l; xs.
+      - rewrite (eval_len _ 0%nat xrow _ e0 _ R1). xs. rewrite (int_ok_wrap _ Hlen), (store1 _ be _ _ (ri_end _ _ _ _ _ R1)). xs.
+        eexists _, 0%nat. split; [reflexivity|]. cbn [memm]. rewrite <- Emax.
+        split; [exact (RInv_end _ _ _ _ _ _ R1)|]. unfold int_ok in *. repeat split; lia.
+      - rewrite (store1 _ be _ _ (ri_end _ _ _ _ _ R1)). xs.
+        eexists _, 0%nat. split; [reflexivity|]. cbn [memm]. rewrite <- Emax.
+        split; [exact (RInv_end _ _ _ _ _ _ R1)|]. unfold int_ok in *. repeat split; lia. }
+    (* "" *)
+    rewrite (rd_ok s 0 ltac:(lia)) in Hr. cbn [CapDefs.bind] in Hr.
+    rewrite ?exec_seq. unfold rempty. rewrite exec_if. cbn [eval]. rewrite (eval_rbyte mm0 0 xrow vb0 e0 _ _ _ R0 ltac:(lia)). xs.
+    rewrite (sc_eqb_0 _ (nthb_lt256 s 0 H256)).
+    destruct (nthb s 0 =? 0)%N eqn:Ec0; xs.
+    { injection Hr as <-. cbn [fst snd].
+      rewrite ?exec_seq, (exec_re_beg fuel mm0 0%nat xrow vb0 e0 _ _ _ R0 Hxr).
+      pose proof (RInv_beg _ _ _ _ _ (VInt xrow) R0) as R1.
+      rewrite ?exec_seq, (exec_re_end fuel _ 0%nat xrow _ e0 _ _ _ R1 Hxr Hfit).
+      pose proof (RInv_end _ _ _ _ _ (if xrow =? len then xrow else xrow + 1) R1) as R2.
+      rewrite (exec_re_ret fuel _ 0%nat xrow _ _ _ R2 Hxr).
+      eexists _, 0%nat. split; [reflexivity|]. cbn [memm]. split; [exact R2|]. split; [exact Hxr|]. split; [|exact Hxr].
+      destruct (Z.eqb_spec xrow len); [exact Hxr|apply Hfit; assumption]. }
+    (* the address loop *)
+    destruct (rloop lineno (S (length s)) s 0 xrow 0 0 0) as [r1| | |] eqn:Er1; cbn [CapDefs.bind] in Hr; try discriminate.
+    rewrite ?exec_seq.
+    assert (Er1' : rloop lineno (S (length s)) s 0 xrow 0 0 e0 = CapDefs.Ok r1)
+      by (rewrite <- Er1; apply rloop_first; [lia|intro E; rewrite E in Ec0; discriminate]).
+    destruct (rloop_ok (VPtr bs 0) (S (length s)) 0%nat xrow O 0 e0 r1 fuel mm0 0 VUndef vb0 R0 ltac:(lia) Hxr He0
+                ltac:(left; split; [reflexivity|]; split; [reflexivity|]; intro E; rewrite E in Ec0; discriminate)
+                ltac:(lia) Er1' Hfit ltac:(lia)) as (mm1 & i1 & na1 & v51 & R1 & Ib & Ie & Ixr & E1).
+    rewrite E1. destruct r1 as [[[bad b] e] xr]. cbn [fst snd] in *.
+    destruct bad.
+    { injection Hr as <-. cbn [fst snd b2z]. eexists _, i1. split; [reflexivity|]. cbn [memm]. split; [exact R1|]. split; [exact Ib|]. split; [exact Ie|exact Ixr]. }
+    destruct (rtail_ok fuel mm1 i1 xr b e (VPtr bs 0) na1 v51 R1 Ib Ie) as (mm2 & E2 & R2 & Ib2).
+    rewrite E2. unfold rfinal in *. cbv zeta in *. cbn [fst snd] in *.
+    set (b1 := if (b <? 0) && (e =? 0) then 0 else b) in *.
+    assert (Er : r = (((b1 <? 0) || (len <=? b1)) || ((e <? b1) || (len <? e)), b1, e, xr)).
+    { destruct ((b1 <? 0) || (len <=? b1)); [injection Hr as <-; reflexivity|].
+      destruct ((e <? b1) || (len <? e)); injection Hr as <-; reflexivity. }
+    subst r. cbn [fst snd]. eexists _, i1. split; [reflexivity|]. cbn [memm]. split; [exact R2|]. split; [exact Ib2|]. split; [exact Ie|exact Ixr].
   Qed.
 End Region.
